@@ -21,6 +21,9 @@ CONSTANTS Ests,        \* establishers (strings)
           MaxKills,    \* connections the network may kill
           AllowClose,
           FixPut,      \* TRUE: put() after closeAll hands out a closed, uncached connection object
+          MaxReplace,  \* how often regions may be replaced (split / merged / moved) after they were established
+          DelDropsEmpty,        \* clients.del forgets a connection that is left without regions (FALSE = the code: it stays cached)
+          CloseOnlyWithRegions, \* closeAll closes only connections that still have a region (FALSE = the code: every cached one)
           FixDial      \* TRUE: Dial does nothing on a closed object and re-checks `done' after publishing the
                        \*       conn; fail() reads the conn under the same lock
 
@@ -45,10 +48,12 @@ VARIABLES
   avail,       \* [Ests -> BOOLEAN]       the region was made available with a client
   cpc,         \* closer control point
   cwork,       \* connection objects closeAll still has to close
-  kills
+  kills,
+  kregs,       \* [Conns -> SUBSET Ests]  the regions registered for a connection object in the cache (clientRegionCache.regions)
+  replaced     \* region replacements so far
 
 vars == <<cached, used, addr, kdone, kconn, dialOnce, dialer, dials, declared, cdone, cacheClosed, lock, pc, conn, tries, avail,
-          cpc, cwork, kills>>
+          cpc, cwork, kills, kregs, replaced>>
 
 Init ==
   /\ cached = {} /\ used = {} /\ addr = [k \in Conns |-> "-"] /\ kdone = [k \in Conns |-> FALSE]
@@ -57,6 +62,7 @@ Init ==
   /\ cdone = FALSE /\ cacheClosed = FALSE /\ lock = "-"
   /\ pc = [e \in Ests |-> "put"] /\ conn = [e \in Ests |-> 0] /\ tries = [e \in Ests |-> 1] /\ avail = [e \in Ests |-> FALSE]
   /\ cpc = <<"idle", 0>> /\ cwork = {} /\ kills = 0
+  /\ kregs = [k \in Conns |-> {}] /\ replaced = 0
 
 Fresh == CHOOSE k \in Conns : k \notin used
 
@@ -73,7 +79,8 @@ Put(e) ==
              THEN kdone' = [kdone EXCEPT ![Fresh] = TRUE] /\ UNCHANGED cached     \* closed and not cached
              ELSE cached' = cached \cup {Fresh} /\ UNCHANGED kdone
   /\ pc' = [pc EXCEPT ![e] = "dial"]
-  /\ UNCHANGED <<kconn, dialOnce, dialer, dials, declared, cdone, cacheClosed, lock, tries, avail, cpc, cwork, kills>>
+  /\ kregs' = [kregs EXCEPT ![conn'[e]] = IF conn'[e] \in cached' THEN @ \cup {e} ELSE @]
+  /\ UNCHANGED <<kconn, dialOnce, dialer, dials, declared, cdone, cacheClosed, lock, tries, avail, cpc, cwork, kills, replaced>>
 
 (* Dial: sync.Once; the first caller runs the body, the others wait for it *)
 DialEnter(e) ==
@@ -85,34 +92,34 @@ DialEnter(e) ==
            ELSE /\ dialOnce' = [dialOnce EXCEPT ![k] = "running"] /\ dialer' = [dialer EXCEPT ![k] = e]
                 /\ pc' = [pc EXCEPT ![e] = "dialing"]
      \/ /\ dialOnce[k] = "yes" /\ pc' = [pc EXCEPT ![e] = "dialed"] /\ UNCHANGED <<dialOnce, dialer>>
-  /\ UNCHANGED <<cached, used, addr, kdone, kconn, dials, declared, cdone, cacheClosed, lock, conn, tries, avail, cpc, cwork, kills>>
+  /\ UNCHANGED <<cached, used, addr, kdone, kconn, dials, declared, cdone, cacheClosed, lock, conn, tries, avail, cpc, cwork, kills, replaced, kregs>>
 
 DialerReturns(e) ==      \* the dialer produced a connection (a local variable of Dial so far)
   /\ pc[e] = "dialing"
   /\ kconn' = [kconn EXCEPT ![conn[e]] = "dialed"]
   /\ dials' = [dials EXCEPT ![AddrOf[e]] = @ + 1]
   /\ pc' = [pc EXCEPT ![e] = "publish"]
-  /\ UNCHANGED <<cached, used, addr, kdone, dialOnce, dialer, declared, cdone, cacheClosed, lock, conn, tries, avail, cpc, cwork, kills>>
+  /\ UNCHANGED <<cached, used, addr, kdone, dialOnce, dialer, declared, cdone, cacheClosed, lock, conn, tries, avail, cpc, cwork, kills, replaced, kregs>>
 
 Publish(e) ==            \* c.conn = conn (under connM); with the fix, re-check done and close the conn ourselves
   /\ pc[e] = "publish"
   /\ LET k == conn[e] IN
      kconn' = [kconn EXCEPT ![k] = IF FixDial /\ kdone[k] THEN "closed" ELSE "open"]
   /\ pc' = [pc EXCEPT ![e] = "hello"]
-  /\ UNCHANGED <<cached, used, addr, kdone, dialOnce, dialer, dials, declared, cdone, cacheClosed, lock, conn, tries, avail, cpc, cwork, kills>>
+  /\ UNCHANGED <<cached, used, addr, kdone, dialOnce, dialer, dials, declared, cdone, cacheClosed, lock, conn, tries, avail, cpc, cwork, kills, replaced, kregs>>
 
 Hello(e) ==              \* hello written, goroutines started: the Once body ends
   /\ pc[e] = "hello"
   /\ dialOnce' = [dialOnce EXCEPT ![conn[e]] = "yes"] /\ dialer' = [dialer EXCEPT ![conn[e]] = "-"]
   /\ pc' = [pc EXCEPT ![e] = "dialed"]
-  /\ UNCHANGED <<cached, used, addr, kdone, kconn, dials, declared, cdone, cacheClosed, lock, conn, tries, avail, cpc, cwork, kills>>
+  /\ UNCHANGED <<cached, used, addr, kdone, kconn, dials, declared, cdone, cacheClosed, lock, conn, tries, avail, cpc, cwork, kills, replaced, kregs>>
 
 (* after Dial: ErrClientClosed if done, else probe the region *)
 AfterDial(e) ==
   /\ pc[e] = "dialed"
   /\ pc' = [pc EXCEPT ![e] = IF kdone[conn[e]] THEN "down" ELSE "probe"]
   /\ UNCHANGED <<cached, used, addr, kdone, kconn, dialOnce, dialer, dials, declared, cdone, cacheClosed, lock, conn, tries, avail,
-                 cpc, cwork, kills>>
+                 cpc, cwork, kills, replaced, kregs>>
 
 Probe(e) ==              \* the probe succeeds on a live connection, fails with a connection error on a dead one
   /\ pc[e] = "probe"
@@ -120,7 +127,7 @@ Probe(e) ==              \* the probe succeeds on a live connection, fails with 
      THEN pc' = [pc EXCEPT ![e] = "down"] /\ UNCHANGED avail
      ELSE pc' = [pc EXCEPT ![e] = "end"] /\ avail' = [avail EXCEPT ![e] = TRUE]    \* SetClient; MarkAvailable
   /\ UNCHANGED <<cached, used, addr, kdone, kconn, dialOnce, dialer, dials, declared, cdone, cacheClosed, lock, conn, tries, cpc,
-                 cwork, kills>>
+                 cwork, kills, replaced, kregs>>
 
 (* clientDown: take the connection out of the cache (under the lock); then look the region up again *)
 Down(e) ==
@@ -128,7 +135,8 @@ Down(e) ==
   /\ cached' = cached \ {conn[e]}
   /\ declared' = [declared EXCEPT ![AddrOf[e]] = @ + 1]
   /\ pc' = [pc EXCEPT ![e] = "relookup"]
-  /\ UNCHANGED <<used, addr, kdone, kconn, dialOnce, dialer, dials, cdone, cacheClosed, lock, conn, tries, avail, cpc, cwork, kills>>
+  /\ kregs' = [kregs EXCEPT ![conn[e]] = {}]
+  /\ UNCHANGED <<used, addr, kdone, kconn, dialOnce, dialer, dials, cdone, cacheClosed, lock, conn, tries, avail, cpc, cwork, kills, replaced>>
 
 Relookup(e) ==           \* lookupRegion -> ErrClientClosed once the client is closed; else the same address again
   /\ pc[e] = "relookup"
@@ -136,7 +144,23 @@ Relookup(e) ==           \* lookupRegion -> ErrClientClosed once the client is c
      THEN pc' = [pc EXCEPT ![e] = "end"] /\ UNCHANGED tries
      ELSE pc' = [pc EXCEPT ![e] = "put"] /\ tries' = [tries EXCEPT ![e] = @ + 1]
   /\ UNCHANGED <<cached, used, addr, kdone, kconn, dialOnce, dialer, dials, declared, cdone, cacheClosed, lock, conn, avail, cpc,
-                 cwork, kills>>
+                 cwork, kills, replaced, kregs>>
+
+(* An established region is replaced (split, merged, moved): the request that notices is answered "not serving" over the  *)
+(* healthy connection, the region is located again and clients.del(old region) runs under the cache lock. Its successor   *)
+(* either lives at the same address (the establisher of this model goes round again) or somewhere this model does not      *)
+(* follow.                                                                                                                 *)
+Replaced(e) ==
+  /\ pc[e] = "end" /\ avail[e] /\ replaced < MaxReplace /\ lock = "-" /\ ~cdone
+  /\ replaced' = replaced + 1
+  /\ LET k == conn[e]
+         left == kregs[k] \ {e} IN
+     /\ kregs' = [kregs EXCEPT ![k] = left]
+     /\ cached' = IF DelDropsEmpty /\ left = {} THEN cached \ {k} ELSE cached
+  /\ avail' = [avail EXCEPT ![e] = FALSE]
+  /\ \/ pc' = [pc EXCEPT ![e] = "put"]
+     \/ pc' = pc
+  /\ UNCHANGED <<used, addr, kdone, kconn, dialOnce, dialer, dials, declared, cdone, cacheClosed, lock, conn, tries, cpc, cwork, kills>>
 
 (* region.client.fail(): close(done); close the conn if one is published *)
 FailConn(k) ==
@@ -147,33 +171,34 @@ Kill ==                  \* the network kills an open connection: its reader run
   /\ kills < MaxKills
   /\ \E k \in used : kconn[k] = "open" /\ ~kdone[k] /\ FailConn(k)
   /\ kills' = kills + 1
-  /\ UNCHANGED <<cached, used, addr, dialOnce, dialer, dials, declared, cdone, cacheClosed, lock, pc, conn, tries, avail, cpc, cwork>>
+  /\ UNCHANGED <<cached, used, addr, dialOnce, dialer, dials, declared, cdone, cacheClosed, lock, pc, conn, tries, avail, cpc, cwork, replaced, kregs>>
 
 (* Close() *)
 CloseStart ==
   /\ AllowClose /\ cpc = <<"idle", 0>> /\ cdone' = TRUE /\ cpc' = <<"lock", 0>>
-  /\ UNCHANGED <<cached, used, addr, kdone, kconn, dialOnce, dialer, dials, declared, cacheClosed, lock, pc, conn, tries, avail, cwork, kills>>
+  /\ UNCHANGED <<cached, used, addr, kdone, kconn, dialOnce, dialer, dials, declared, cacheClosed, lock, pc, conn, tries, avail, cwork, kills, replaced, kregs>>
 CloseLock ==
-  /\ cpc = <<"lock", 0>> /\ lock = "-" /\ lock' = "closer" /\ cwork' = cached /\ cacheClosed' = TRUE /\ cpc' = <<"closing", 0>>
-  /\ UNCHANGED <<cached, used, addr, kdone, kconn, dialOnce, dialer, dials, declared, cdone, pc, conn, tries, avail, kills>>
+  /\ cpc = <<"lock", 0>> /\ lock = "-" /\ lock' = "closer"
+  /\ cwork' = (IF CloseOnlyWithRegions THEN {k \in cached : kregs[k] # {}} ELSE cached) /\ cacheClosed' = TRUE /\ cpc' = <<"closing", 0>>
+  /\ UNCHANGED <<cached, used, addr, kdone, kconn, dialOnce, dialer, dials, declared, cdone, pc, conn, tries, avail, kills, replaced, kregs>>
 CloseOne ==              \* client.Close() for one cached connection: close(done) ...
   /\ cpc = <<"closing", 0>> /\ cwork # {}
   /\ LET k == CHOOSE k \in cwork : TRUE IN
      /\ kdone' = [kdone EXCEPT ![k] = TRUE] /\ cpc' = <<"closeconn", k>>
-  /\ UNCHANGED <<cached, used, addr, kconn, dialOnce, dialer, dials, declared, cdone, cacheClosed, lock, pc, conn, tries, avail, cwork, kills>>
+  /\ UNCHANGED <<cached, used, addr, kconn, dialOnce, dialer, dials, declared, cdone, cacheClosed, lock, pc, conn, tries, avail, cwork, kills, replaced, kregs>>
 CloseConn ==             \* ... then close the conn it can see
   /\ cpc[1] = "closeconn"
   /\ LET k == cpc[2] IN
      /\ kconn' = [kconn EXCEPT ![k] = IF kconn[k] = "open" THEN "closed" ELSE kconn[k]]
      /\ cwork' = cwork \ {k}
   /\ cpc' = <<"closing", 0>>
-  /\ UNCHANGED <<cached, used, addr, kdone, dialOnce, dialer, dials, declared, cdone, cacheClosed, lock, pc, conn, tries, avail, kills>>
+  /\ UNCHANGED <<cached, used, addr, kdone, dialOnce, dialer, dials, declared, cdone, cacheClosed, lock, pc, conn, tries, avail, kills, replaced, kregs>>
 CloseEnd ==
   /\ cpc = <<"closing", 0>> /\ cwork = {} /\ lock' = "-" /\ cpc' = <<"closed", 0>>
-  /\ UNCHANGED <<cached, used, addr, kdone, kconn, dialOnce, dialer, dials, declared, cdone, cacheClosed, pc, conn, tries, avail, cwork, kills>>
+  /\ UNCHANGED <<cached, used, addr, kdone, kconn, dialOnce, dialer, dials, declared, cdone, cacheClosed, pc, conn, tries, avail, cwork, kills, replaced, kregs>>
 
 Next == \/ \E e \in Ests : Put(e) \/ DialEnter(e) \/ DialerReturns(e) \/ Publish(e) \/ Hello(e) \/ AfterDial(e) \/ Probe(e)
-                            \/ Down(e) \/ Relookup(e)
+                            \/ Down(e) \/ Relookup(e) \/ Replaced(e)
         \/ Kill \/ CloseStart \/ CloseLock \/ CloseOne \/ CloseConn \/ CloseEnd
 Spec == Init /\ [][Next]_vars
 
